@@ -1,27 +1,27 @@
 CONSTANTS
   Nodes = {0, 1, 2}
   Bases = {11}
-  Gens = {TRUE}
+  Gens = {TRUE, FALSE}
   VNs = {9}
   MaxT = 5
-  VoteSets = {{0, 1, 2}, {0}}
+  VoteSets = {{0, 1, 2}}
   Proposers = {0}
   Crafters = {1}
   Laggers = {2}
-  MaxVotes = 3
+  MaxVotes = 2
   MaxOdd = 0
-  MaxBlocks = 3
-  MaxRestarts = 2
+  MaxBlocks = 4
+  MaxRestarts = 0
   MaxPersists = 1
   MaxTicks = 1
   MaxCraft = 0
   MaxForce = 0
-  MaxLag = 0
+  MaxLag = 3
   MaxProbes = 0
   MaxReorg = 0
-  MaxCrash = 0
+  MaxCrash = 2
   ExportOn = TRUE
-  SampleMod = 20
+  SampleMod = 10
 INIT Init
 NEXT Next
 VIEW view
